@@ -511,7 +511,7 @@ def bounded_bytes(pid, tier, seed):
     extra = [b"control;", b"action;", b"test;", b"unknown;", b"command;", b"require;", b"if hasflag {", b"if hasflag ,",
              "#ééééééé\nkeep \"a\";".encode(), b'keep "\xff";', b'require ["\xff"];', b"/* unterminated", b'"unterminated',
              b"text:\nnever ends", b"if true { stop; } \xff", b'"' + b"a" * 64, b'keep "' + b"ab\\" * 24, b"/*" + b"*a" * 40,
-             b"text:\n" + b".x\n" * 30, b"#" + b"x" * 200, b"a" * 300, b":" + b"t" * 100 + b" " * 50 + b"1" * 80 + b"K", b"\x00", b"stop (true);", b"stop (true) header", b"",
+             b"text:\n" + b".x\n" * 30, b"text:" + b"\n" * 60000, b"text:\n" + b"a\n\n" * 20000, b"/*" + b"*/ /*" * 20000, b"#" + b"x" * 200, b"a" * 300, b":" + b"t" * 100 + b" " * 50 + b"1" * 80 + b"K", b"\x00", b"stop (true);", b"stop (true) header", b"",
              "if header :is \"é\" \"é\" { keep } ".encode(), b"if anyof(true,) {}", b"[", b"]", b")", b"}", b";", b","]
     evals = 0
     distinct = set()
